@@ -17,7 +17,44 @@ async fn spin(n: usize) {
     }
 }
 
+/// Protocol mode (`"proto": true`): the same run, but what is written out is the op-level protocol trace
+/// (TraceConcurrent.tla) instead of the call-level one.
 pub async fn run_conc<TC: HasRef>(b: &Value, tr: &mut Tracer) {
+    if b["proto"].as_bool().unwrap_or(false) {
+        let mut scratch = Tracer::new();
+        let events = run_conc_inner::<TC>(b, &mut scratch).await;
+        for e in events {
+            tr.emit(e);
+        }
+    } else {
+        run_conc_inner::<TC>(b, tr).await;
+    }
+}
+
+/// the root node's value as the digest a caller sees (12 hex digits), other values as they are
+fn proto_fix<TC: HasRef>(mut e: Value) -> Value {
+    if e.get("recs").is_none() {
+        return e;
+    }
+    if let Some(recs) = e["recs"].as_array_mut() {
+        for r in recs.iter_mut() {
+            if r["t"] == "node" && r["k"].as_str().unwrap().ends_with("/0") {
+                for f in ["lh", "ph"] {
+                    let h = r[f].as_str().unwrap().to_string();
+                    if h.len() == 64 {
+                        let mut v = [0u8; 32];
+                        v.copy_from_slice(&hex::decode(&h).unwrap());
+                        r[f] = json!(rid(&TC::compute_root_hash_from_val(&akd::AzksValue(v))));
+                    }
+                }
+            }
+        }
+    }
+    e
+}
+
+async fn run_conc_inner<TC: HasRef>(b: &Value, tr: &mut Tracer) -> Vec<Value> {
+    let proto = b["proto"].as_bool().unwrap_or(false);
     let labels: Vec<String> = b["labels"].as_array().unwrap().iter().map(|x| x.as_str().unwrap().to_string()).collect();
     let values: Vec<String> = b["values"].as_array().unwrap().iter().map(|x| x.as_str().unwrap().to_string()).collect();
     let conc = b["conc"].as_u64().unwrap_or(0);
@@ -48,6 +85,18 @@ pub async fn run_conc<TC: HasRef>(b: &Value, tr: &mut Tracer) {
         c.gate_post = b["post"].as_bool().unwrap_or(false);
         c.sched_points = b["sched_points"].as_bool().unwrap_or(false);
     }
+    let mut proto_events: Vec<Value> = vec![];
+    if proto {
+        // the committed state the run starts from: epoch record, every node record, the published digests
+        let recs: Vec<Value> = ctx.db.all_records().await.iter().filter_map(crate::hookdb::rec_json).collect();
+        proto_events.push(json!({"ev": "reset", "id": b["id"], "cfg": TC::NAME}));
+        proto_events.push(proto_fix::<TC>(json!({"ev": "cstate", "epoch": before_epoch, "recs": recs,
+            "roots": ctx.roots.iter().map(rid).collect::<Vec<_>>(),
+            "pubs": b["procs"].as_array().unwrap().iter().filter(|p| p["kind"] == "publish").map(|p| p["pid"].clone()).collect::<Vec<_>>()})));
+        let mut c = ctx.db.ctl.lock().unwrap();
+        c.proto.clear();
+        c.proto_enabled = true;
+    }
     let procs = b["procs"].as_array().unwrap().clone();
     let mut handles: HashMap<u32, tokio::task::JoinHandle<Value>> = HashMap::new();
     for p in procs.iter() {
@@ -75,7 +124,9 @@ pub async fn run_conc<TC: HasRef>(b: &Value, tr: &mut Tracer) {
             // a task begins only when the controller grants it its first step (so that a request can START
             // at any point of another call, not only before it)
             crate::hookdb::gate_wait(&start_ctl, pid, "start", String::new()).await;
-            match spec["kind"].as_str().unwrap() {
+            let ret_ctl = start_ctl.clone();
+            let kind = spec["kind"].as_str().unwrap().to_string();
+            let v = match spec["kind"].as_str().unwrap() {
                 "publish" => match dir.publish(real_batch).await {
                     Ok(EpochHash(ep, d)) => json!({"res": "ok", "epoch": ep, "digest": hex::encode(d)}),
                     Err(e) => json!({"res": "err", "what": format!("{e}")}),
@@ -115,7 +166,16 @@ pub async fn run_conc<TC: HasRef>(b: &Value, tr: &mut Tracer) {
                     }
                 }
                 other => json!({"res": "err", "what": format!("unknown kind {other}")}),
+            };
+            {
+                // protocol trace: the call returns (recorded in the task, i.e. in real order)
+                let mut c = ret_ctl.lock().unwrap();
+                if c.proto_enabled {
+                    let root = v["digest"].as_str().map(|h| h[..12].to_string()).unwrap_or("-".into());
+                    c.proto.push(json!({"ev": "ret", "pid": pid, "kind": kind, "res": v["res"], "epoch": v["epoch"].as_u64().unwrap_or(0), "root": root}));
+                }
             }
+            v
         };
         handles.insert(pid, tokio::spawn(CTL.scope(ctx.db.ctl.clone(), PID.scope(pid, fut))));
     }
@@ -123,6 +183,9 @@ pub async fn run_conc<TC: HasRef>(b: &Value, tr: &mut Tracer) {
     // controller
     let schedule: Vec<u32> = b["schedule"].as_array().unwrap().iter().map(|x| x.as_u64().unwrap() as u32).collect();
     let mut granted = 0u64;
+    // "faults": [[pid, k], ...] - the k-th granted step of task pid (a storage operation) fails
+    let faults: Vec<(u32, u64)> = b["faults"].as_array().map(|a| a.iter().map(|x| (x[0].as_u64().unwrap() as u32, x[1].as_u64().unwrap())).collect()).unwrap_or_default();
+    let mut per_pid: HashMap<u32, u64> = HashMap::new();
     for pid in schedule.iter() {
         let h = match handles.get(pid) {
             Some(h) => h,
@@ -135,7 +198,16 @@ pub async fn run_conc<TC: HasRef>(b: &Value, tr: &mut Tracer) {
             }
             let at_gate = ctx.db.ctl.lock().unwrap().waiting.contains_key(pid);
             if at_gate {
-                ctx.db.ctl.lock().unwrap().grants.push_back(*pid);
+                {
+                    let mut c = ctx.db.ctl.lock().unwrap();
+                    let n = per_pid.entry(*pid).or_insert(0);
+                    *n += 1;
+                    let is_op = c.waiting.get(pid).map(|w| w.0 != "start" && w.0 != "complete" && w.0 != "sched_point").unwrap_or(false);
+                    if is_op && faults.contains(&(*pid, *n)) {
+                        c.fail_next.insert(*pid);
+                    }
+                    c.grants.push_back(*pid);
+                }
                 granted += 1;
                 // wait until the grant is consumed and the task is at its next gate (or done)
                 let mut k = 0;
@@ -180,6 +252,26 @@ pub async fn run_conc<TC: HasRef>(b: &Value, tr: &mut Tracer) {
         }
     }
     tr.emit(json!({"ev": "reopen", "kind": "concurrent_run", "schedule": schedule, "granted": granted}));
+    if proto {
+        let mut c = ctx.db.ctl.lock().unwrap();
+        c.proto_enabled = false;
+        for e in std::mem::take(&mut c.proto) {
+            proto_events.push(proto_fix::<TC>(e));
+        }
+        proto_events.push(json!({"ev": "quiescent", "txn_open": ctx.manager.is_transaction_active()}));
+        // the node keys of the run (the specification's database is a function over exactly these)
+        let mut keys = std::collections::BTreeSet::new();
+        for e in proto_events.iter() {
+            if let Some(recs) = e.get("recs").and_then(|r| r.as_array()) {
+                for r in recs {
+                    if r["t"] == "node" {
+                        keys.insert(r["k"].as_str().unwrap().to_string());
+                    }
+                }
+            }
+        }
+        proto_events[1]["keys"] = json!(keys.into_iter().collect::<Vec<_>>());
+    }
 
     // serialise: effective publishes in epoch order, then no-ops, then failed; then reader answers
     // which (label, value) pairs storage holds per epoch: tells, among calls that returned the same
@@ -300,6 +392,7 @@ pub async fn run_conc<TC: HasRef>(b: &Value, tr: &mut Tracer) {
     tr.emit(json!({"ev": "final_leaves", "epoch": cur, "root_ok": refroot == Some(ctx.roots[cur as usize]), "leaves": leaves,
         "txn_open": ctx.manager.is_transaction_active()}));
     ctx.sweep(tr).await;
+    proto_events
 }
 
 pub fn main_conc(args: &[String]) {
@@ -308,6 +401,17 @@ pub fn main_conc(args: &[String]) {
     let threads: usize = arg_val(args, "--threads").map(|s| s.parse().unwrap()).unwrap_or(8);
     let behaviours = read_ndjson(&input);
     crate::hookdb::install_sched_hook();
+    crate::hookdb::install_trace_hook();
+    let force_proto = args.iter().any(|a| a == "--proto");
+    let behaviours: Vec<Value> = behaviours
+        .into_iter()
+        .map(|mut b| {
+            if force_proto {
+                b["proto"] = json!(true);
+            }
+            b
+        })
+        .collect();
     let (n, total) = crate::dirdrv::run_parallel(behaviours, &out, threads, |b| async move {
         if b["mt"].as_bool().unwrap_or(false) {
             // truly parallel run: own multi-thread runtime, gate open, tasks race freely
